@@ -592,7 +592,8 @@ def loader_history_independent(ctx):
 # the contracts, never counted as proved): whole runs of the real Orchestrator on generated configurations.
 # Oracle, from the property text only:
 #   carriers   the same configuration in .thailint.yaml, .thailint.json and pyproject.toml [tool.thailint] gives the same
-#              violations
+#              violations; a file passed with --config (through the real cli.utils.load_config_file) behaves like the same
+#              file as the project's only configuration, even when the project has its own config with other sections
 #   spelling   `magic-numbers:` and `magic_numbers:` give the same violations
 #   language   the configuration applied to a file depends on its LANGUAGE only: an extensionless script with a python
 #              shebang gets the violations of the identical .py file (per-language overrides included)
@@ -639,7 +640,9 @@ def run_differential(ctx):
         ign = importlib.import_module("src.linter_config.ignore")
         import yaml
 
-        def lint(cfg, carrier, files, order=None):
+        cli_utils = importlib.import_module("src.cli.utils")
+
+        def lint(cfg, carrier, files, order=None, project_cfg=None):
             nonlocal runs
             runs += 1
             with tempfile.TemporaryDirectory() as d:
@@ -648,12 +651,18 @@ def run_differential(ctx):
                     (root / ".thailint.yaml").write_text(yaml.dump(cfg, sort_keys=False), encoding="utf-8")
                 elif carrier == "json":
                     (root / ".thailint.json").write_text(_json.dumps(cfg), encoding="utf-8")
+                elif carrier == "--config":
+                    # the project HAS its own auto-discovered configuration; the run is given another file with --config
+                    (root / ".thailint.yaml").write_text(yaml.dump(project_cfg, sort_keys=False), encoding="utf-8")
+                    (root / "given.yaml").write_text(yaml.dump(cfg, sort_keys=False), encoding="utf-8")
                 else:
                     (root / "pyproject.toml").write_text(toml_of(cfg), encoding="utf-8")
                 for name, text in files.items():
                     (root / name).write_text(text, encoding="utf-8")
                 ign.clear_ignore_parser_cache()
                 orch = core.Orchestrator(project_root=root)
+                if carrier == "--config":
+                    cli_utils.load_config_file(orch, str(root / "given.yaml"), False)  # what every command does for --config
                 vs = []
                 for name in (order or sorted(files)):
                     vs.extend(orch.lint_file(root / name))
@@ -676,6 +685,17 @@ def run_differential(ctx):
                 got = lint(cfg, carrier, files)
                 if got != base:
                     bad.append(f"carriers: {cfg} gives {len(base)} violations from .thailint.yaml and {len(got)} from {carrier}")
+            # --config: the given file IS the configuration, whatever the project's own config says about OTHER sections
+            # (a section missing from the given file falls back to the defaults, not to the project's file)
+            strictest = {"nesting": {"max_nesting_depth": 1}, "srp": {"max_methods": 1}, "magic-numbers": {"allowed_numbers": []}}
+            for omitted in sorted(cfg):
+                given = {k: v for k, v in cfg.items() if k != omitted}
+                project = {omitted: strictest[omitted] if rng.random() < 0.5 else {"enabled": False}}
+                project.update({k: strictest[k] for k in cfg if k != omitted})
+                if lint(given, "--config", files, project_cfg=project) != lint(given, "yaml", files):
+                    bad.append(f"--config: {given} passed with --config in a project whose own .thailint.yaml is {project} does "
+                               f"not behave like the same file as the only configuration")
+                    break
             under = dict(cfg)
             under["magic_numbers"] = under.pop("magic-numbers")
             if lint(under, "yaml", files) != base:
